@@ -507,10 +507,15 @@ inline Geo BuildGeo(Rng &r, const Topo &t, const std::vector<AttrPlan> &plans, c
 
 inline Geo GenGeo(Rng &r, const GenParams &gp, std::vector<AttrPlan> *plans_out = nullptr) {
   Topo t;
+  bool compressible = false;
   if (gp.point_cloud) {
     int n = gp.size_class == 0 ? 0 : gp.size_class == 1 ? 1 : gp.size_class == 2 ? 2 + r.below(38) : gp.size_class == 3 ? 40 + r.below(400) : 440 + r.below(4000);
+    // Highly compressible clouds: many points, every attribute constant or over a handful of values, so that the
+    // stream is (much) shorter than one byte per point.
+    compressible = n >= 40 && r.below(6) == 0;
+    if (compressible) n *= 1 + static_cast<int>(r.below(4));
     t.nverts = n;
-    t.name = "points";
+    t.name = compressible ? "points-compressible" : "points";
     int mode = r.below(3);
     for (int i = 0; i < n; ++i) {
       if (mode == 0) t.coord.push_back({static_cast<float>(r.uniform(-1, 1)), static_cast<float>(r.uniform(-1, 1)), static_cast<float>(r.uniform(-1, 1))});
@@ -524,6 +529,7 @@ inline Geo GenGeo(Rng &r, const GenParams &gp, std::vector<AttrPlan> *plans_out 
   plans.push_back(RandomPlan(r, gp, true));
   int extra = gp.max_extra_atts > 0 ? static_cast<int>(r.below(gp.max_extra_atts + 1)) : 0;
   for (int i = 0; i < extra; ++i) plans.push_back(RandomPlan(r, gp, false));
+  if (compressible) for (auto &pl : plans) pl.style = r.below(2) ? 2 : 3;
   // POSITION is not always attribute 0.
   size_t pos_index = 0;
   if (plans.size() > 1 && r.below(4) == 0) { pos_index = r.below(plans.size()); std::swap(plans[0], plans[pos_index]); }
